@@ -553,3 +553,210 @@ def minimum_is_differentiated_correctly_or_rejected(K, logly):
         K.ensure("min: diff is the derivative of the active argument", K.real_eq(dif(K, r), K.ite(f < c, fp, 0)))
     else:
         K.raises(TypeError, lambda: K.call(AA.minimum, a, c), "no rule for minimum: rejected")
+
+
+# ------------------------------------------------------------------------------ stacked-time Jacobian with the first-order terminal condition
+STACKED_SRC = r"""
+!transition_variables
+    x, z, w
+!transition_shocks
+    ex
+!parameters
+    a, b
+!log_variables
+    z
+!transition_equations
+    x = a*x[-1] + b*x[+2] + 0.1*(z[+1] - 1) + ex;
+    log(z) = 0.5*log(z[-1]) + 0.2*x - 0.1*w[+1];
+    w = 0.4*w[-1] + 0.3*x^2 + 0.1*x;
+"""
+
+
+def _capture_stacked_evaluator(num_periods):
+    """the evaluator (eval_func, eval_jacob, init_guess, data) that Simultaneous.simulate(method='stacked_time') hands to
+    the Newton solver, captured by wrapping the solver"""
+    import io, contextlib
+    import irispie as ir
+    from irispie.stacked_time import simulators as SS
+    m = ir.Simultaneous.from_string(STACKED_SRC)
+    m.assign(a=0.3, b=0.2, x=0, z=1, w=0)
+    captured = {}
+    original = SS._nq.damped_newton
+
+    def capturing(*, eval_func, eval_jacob, init_guess, args, **kwargs):
+        captured.update(eval_func=eval_func, eval_jacob=eval_jacob, init_guess=np.copy(init_guess), data=np.copy(args[0]))
+        return original(eval_func=eval_func, eval_jacob=eval_jacob, init_guess=init_guess, args=args, **kwargs)
+    with contextlib.redirect_stdout(io.StringIO()):
+        m.solve()
+        start = ir.qq(2020, 1)
+        span = start >> (start + num_periods - 1)
+        db = m.build_steady_paths(span)
+        db["ex"][start] = 0.5
+        db["x"][start - 1] = 0.2
+        db["w"][start - 1] = -0.1
+        db["z"][start - 1] = 1.1
+        SS._nq.damped_newton = capturing
+        try:
+            m.simulate(db, span, method="stacked_time")
+        finally:
+            SS._nq.damped_newton = original
+    return m, captured
+
+
+@bounded("C02", bound="one nonlinear model with leads of one and two periods and a log-variable, simulated over 3 and 5 periods; Jacobian (terminal-condition correction included) at 2 random points per horizon against central differences of the evaluator's own residual function")
+def stacked_time_jacobian_against_finite_differences(B):
+    """The stacked-time Jacobian handed to the Newton solver - including the correction for the first-order terminal
+    condition (leads beyond the last simulated period are functions of the last simulated state) - equals the derivative
+    of the stacked residuals with respect to the unknowns (logs of log-variables)."""
+    rng = np.random.default_rng(B.rng.randint(0, 10 ** 6))
+    for num_periods in (3, 5):
+        m, cap = _capture_stacked_evaluator(num_periods)
+        if not cap:
+            B.fail("the stacked-time simulator did not call the Newton solver", {"periods": num_periods})
+            return
+        for _ in range(2):
+            B.case()
+            guess = cap["init_guess"] + 0.1 * rng.standard_normal(cap["init_guess"].shape)
+            J = cap["eval_jacob"](guess, np.copy(cap["data"]))
+            J = J.toarray() if hasattr(J, "toarray") else np.asarray(J)
+            fd = np.zeros_like(J)
+            h = 1e-6
+            for i in range(guess.size):
+                gp, gm = guess.copy(), guess.copy()
+                gp[i] += h
+                gm[i] -= h
+                fd[:, i] = (np.asarray(cap["eval_func"](gp, np.copy(cap["data"])), dtype=float) - np.asarray(cap["eval_func"](gm, np.copy(cap["data"])), dtype=float)) / (2 * h)
+            bad = np.argwhere(np.abs(J - fd) > 1e-6 * np.maximum(1, np.abs(fd)))
+            if J.shape != fd.shape or len(bad):
+                r, c = (int(bad[0][0]), int(bad[0][1])) if len(bad) else (None, None)
+                B.fail("stacked-time Jacobian differs from the derivative of the stacked residuals", {"periods": num_periods, "row": r, "column": c,
+                                                                                                         "jacobian": None if r is None else float(J[r, c]), "finite_difference": None if r is None else float(fd[r, c]),
+                                                                                                         "mismatching_cells": int(len(bad))})
+                return
+    return {"exhaustive_within_bound": False}
+
+
+from irispie.fords import terminators as TM
+from irispie.fords import solutions as FSOL
+
+
+@contract("C02", targets=["irispie.fords.terminators:Terminator.__init__", "irispie.fords.terminators:Terminator.terminate_simulation", "irispie.fords.simulators:get_init_xi"],
+          instances=[((5, 6, 7),), ((3, 4),)], cross=0, opts={"max_paths": 200})
+def terminal_condition_rows_match_the_terminal_unknowns(K, columns):
+    """First-order terminal condition, relative to a GIVEN solution (T, K symbolic): the values of the current-dated
+    transition variables j periods after the last simulated period are rows of T^j xi_last + (T^{j-1} + ... + I) K.
+    (1) terminate_simulation writes exactly these values (in logs for log-variables) into the terminal columns and
+    nothing else; (2) the k-th terminal unknown of the Jacobian, Token(qid, column), is paired - through
+    _terminal_column_index[k] - with the row of the stacked [T; T^2; ...] that belongs to THAT variable and THAT column:
+    this pairing is what the terminal correction of the Jacobian multiplies with."""
+    import irispie as ir
+    m = ir.Simultaneous.from_string(STACKED_SRC)
+    m.assign(a=0.3, b=0.2, x=0, z=1, w=0)
+    m.solve()
+    m_v = next(iter(m.iter_variants()))
+    eqs = m_v.get_dynamic_equation_objects(kind=ir.equations.TRANSITION_EQUATION) if hasattr(ir, "equations") else None
+    from irispie import equations as _EQ
+    eqs = m_v.get_dynamic_equation_objects(kind=_EQ.TRANSITION_EQUATION)
+    vec = m_v._get_dynamic_solution_vectors()
+    nxi = len(vec.transition_variables)
+    T = K.array("T", (nxi, nxi), nan=False)
+    Kv = K.array("Kvec", (nxi,), nan=False)
+    sol = K.obj(FSOL.Solution, **{n: None for n in FSOL.Solution.__slots__})
+    K.setattr(sol, "T", T)
+    K.setattr(sol, "K", Kv)
+    term = K.stubbed(type(m_v)._gets_solution, lambda self, **kw: sol, "the first-order solution is given (C01 is not applicable): symbolic T and K",
+                     lambda: K.call(TM.Terminator, K.lift(m_v), tuple(columns), eqs))
+    last = columns[-1]
+    max_lead = m_v.max_lead
+    curr_qids, curr_idx = vec.get_curr_transition_indexes()
+    curr_qids, curr_idx = list(curr_qids), list(curr_idx)
+    t = lambda i, j: K.cell_val(K.cell(T, i, j))      # noqa: E731
+    # powers of T and cumulated constants, computed here
+    P = [[[(1 if i == j else 0) for j in range(nxi)] for i in range(nxi)]]
+    C = [[0 for _ in range(nxi)]]
+    for _ in range(max_lead):
+        prev, prevc = P[-1], C[-1]
+        P.append([[sum(t(i, k) * prev[k][j] for k in range(nxi)) for j in range(nxi)] for i in range(nxi)])
+        C.append([sum(t(i, k) * prevc[k] for k in range(nxi)) + K.cell_val(K.cell(Kv, i)) for i in range(nxi)])
+    spots = list(K.items(K.attr(term, "terminal_wrt_spots")))
+    index = list(K.items(K.attr(term, "_terminal_column_index")))
+    TT = K.attr(term, "_curr_TT")
+    K.ensure("one stack row per current-dated variable and lead", K.shape(TT) == (len(curr_qids) * max_lead, nxi))
+    K.ensure("as many pairings as terminal unknowns", len(index) == len(spots))
+    q2l = m_v.create_qid_to_logly()
+    for k, (spot, r) in enumerate(zip(spots, index)):
+        qid, col = spot[0], spot[1]
+        j = col - last
+        K.ensure(f"terminal unknown {k}: a current-dated variable in a terminal column", qid in curr_qids and 1 <= j <= max_lead)
+        if qid in curr_qids and 1 <= j <= max_lead:
+            row = curr_idx[curr_qids.index(qid)]
+            K.ensure(f"terminal unknown {k} = (qid {qid}, last+{j}): paired with row {row} of T^{j}",
+                     K.And(*[K.real_eq(K.cell_val(K.cell(TT, r, c)), P[j][row][c]) for c in range(nxi)]))
+    # (1) terminate_simulation
+    nrows = max(q.id for q in m_v.get_quantities()) + 1
+    ncols = last + max_lead + 2
+    X = K.array("X", (nrows, ncols), nan=False)
+    for q, lg in q2l.items():
+        if lg:
+            for cc in range(ncols):
+                K.assume(K.cell_val(K.cell(X, q, cc)) > 0)
+    X0 = K.snapshot(X)
+    K.method(term, "terminate_simulation", X)
+    tv = list(vec.transition_variables)
+    xi_last = [(K.log(K.cell_val(K.cell(X0, tok.qid, last + tok.shift))) if q2l.get(tok.qid) else K.cell_val(K.cell(X0, tok.qid, last + tok.shift))) for tok in tv]
+    for j in range(1, max_lead + 1):
+        for qid, row in zip(curr_qids, curr_idx):
+            val = sum(P[j][row][c] * xi_last[c] for c in range(nxi)) + C[j][row]
+            got = K.cell_val(K.cell(X, qid, last + j))
+            K.ensure(f"terminal value of qid {qid} at last+{j}", K.real_eq(K.log(got) if q2l.get(qid) else got, val))
+    rr, cc = K.int("r", 0, nrows - 1), K.int("c", 0, ncols - 1)
+    written = K.Or(*[K.And(rr == q, cc == last + j) for q in curr_qids for j in range(1, max_lead + 1)])
+    K.ensure("nothing else is changed (non-log rows exactly; log rows up to exp(log(.)))", K.Or(written, K.cell_eq(K.cell(X, rr, cc), K.cell(X0, rr, cc)), K.Or(*[rr == q for q, lg in q2l.items() if lg])))
+
+
+@contract("C02", targets=["irispie.fords.terminators:Terminator.terminate_jacobian", "irispie.fords.terminators:Terminator.create_terminal_jacobian_map",
+                          "irispie.fords.terminators:_complete_terminal_jacobian_map"], instances=[((5, 6, 7),), ((3, 4),)], cross=0, opts={"max_paths": 200})
+def terminal_correction_is_the_chain_rule(K, columns):
+    """terminate_jacobian folds the columns of the terminal unknowns into the regular ones by the chain rule: a terminal
+    unknown is a function of the state at the last simulated period (row r_k of the stacked powers of T), so
+        d f / d x(q, last+s)  +=  sum_k  d f / d terminal_k  *  TT[r_k, position of (q, s) in the transition vector]
+    for every regular unknown that is an element of that state, and every other column is left as it was."""
+    import irispie as ir
+    from irispie import equations as _EQ
+    from irispie.incidences.main import Token as _Tok
+    m = ir.Simultaneous.from_string(STACKED_SRC)
+    m.assign(a=0.3, b=0.2, x=0, z=1, w=0)
+    m.solve()
+    m_v = next(iter(m.iter_variants()))
+    eqs = m_v.get_dynamic_equation_objects(kind=_EQ.TRANSITION_EQUATION)
+    vec = m_v._get_dynamic_solution_vectors()
+    endo = [q.id for q in m_v.get_quantities(kind=ir.quantities.TRANSITION_VARIABLE)] if hasattr(ir, "quantities") else None
+    from irispie import quantities as _Q
+    endo = [q.id for q in m_v.get_quantities(kind=_Q.TRANSITION_VARIABLE)]
+    wrt_spots = [_Tok(q, c) for c in columns for q in endo]            # regular unknowns: every endogenous variable in every simulated column
+    term = TM.Terminator(m_v, tuple(columns), eqs)
+    term.create_terminal_jacobian_map(wrt_spots)
+    nreg, nterm = len(wrt_spots), len(term.terminal_wrt_spots)
+    nrows = 2
+    TM._complete_terminal_jacobian_map(term.terminal_jacobian_map, list(range(nrows)))
+    term._terminal_jacobian_map_completed = True
+    tl = K.lift(term)
+    nxi = len(vec.transition_variables)
+    TT = K.array("TT", tuple(term._curr_TT.shape), nan=False)
+    K.setattr(tl, "_curr_TT", TT)
+    J = K.array("J", (nrows, nreg + nterm), nan=False)
+    J0 = K.snapshot(J)
+    R = K.method(tl, "terminate_jacobian", J)
+    K.ensure("shape: the terminal columns are folded away", K.shape(R) == (nrows, nreg))
+    last = columns[-1]
+    tv = list(vec.transition_variables)
+    for r in range(nrows):
+        for c, spot in enumerate(wrt_spots):
+            pos = next((i for i, tok in enumerate(tv) if tok.qid == spot.qid and last + tok.shift == spot.shift), None)
+            base = K.cell_val(K.cell(J0, r, c))
+            if pos is None:
+                K.ensure(f"row {r}, unknown {tuple(spot)}: not part of the last state - unchanged", K.real_eq(K.cell_val(K.cell(R, r, c)), base))
+            else:
+                add = sum(K.cell_val(K.cell(J0, r, nreg + k)) * K.cell_val(K.cell(TT, term._terminal_column_index[k], pos)) for k in range(nterm))
+                K.ensure(f"row {r}, unknown {tuple(spot)}: element {pos} of the last state - chain rule through every terminal unknown", K.real_eq(K.cell_val(K.cell(R, r, c)), base + add))
+    K.ensure("the input Jacobian is not modified", K.And(*[K.cell_eq(K.cell(J, r, c), K.cell(J0, r, c)) for r in range(nrows) for c in range(nreg + nterm)]))
